@@ -14,7 +14,11 @@
    finding F-C12g; in a typed field / element an unregistered one is fine, behind a pointer
    the encoder refuses it); [fixed]: the current code, [v0] / [without_x]: the code before
    the repairs; [≅]: deep equality with nil and empty containers identified;
-   [dyn_ty]: reflect.TypeOf.  The universe covers arrays and defined container types. *)
+   [dyn_ty]: reflect.TypeOf.  The universe covers arrays and defined container types; map key
+   types are basic kinds, named basic types, struct types and arrays of those ([key_ty]), the
+   key values being key-shaped ([kval], part of [wt]): a key is written as its plain JSON
+   ([enc_key]: the text of a value of basic kind, a JSON array, a JSON object), so pointers
+   and interfaces inside keys stay outside (finding F-C12j). *)
 From Coq Require Import List Bool Arith NArith ZArith String Ascii.
 From Eino Require Import Base.Util Base.Universe Model.Ser Model.SerCheckpoint Model.SerLits Model.SerStore
      Proofs.Ser Proofs.SerLoud Proofs.SerTop Proofs.SerReg Proofs.SerRefl Proofs.SerTotal
@@ -434,3 +438,22 @@ Example checkpoint_store_nonvacuous :
   | _ => false
   end = true.
 Proof. split; vm_compute; reflexivity. Qed.
+(* map keys beyond the basic kinds: a struct key type and an array key type satisfy the
+   hypotheses of 1, are accepted and come back *)
+Example composite_keys_nonvacuous :
+  let env := [(0%N, [("A"%string, TBase BInt); ("B"%string, TBase BString)])] in
+  let reg := (builtin_registry ++ [("ks"%string, TStruct 0); ("arr2"%string, TArray 2 (TBase BInt))])%list in
+  let k1 := VStruct 0 [("A"%string, VBase BInt (LInt 1)); ("B"%string, VBase BString (LStr "x"))] in
+  let k2 := VStruct 0 [("A"%string, VBase BInt (LInt 1)); ("B"%string, VBase BString (LStr "y"))] in
+  let v := VSlice TAny (Some
+     [VIface TAny (Some (VMap (TStruct 0) (TBase BString)
+                           (Some [(k1, VBase BString (LStr "one")); (k2, VBase BString (LStr "two"))])));
+      VIface TAny (Some (VMap (TArray 2 (TBase BInt)) TAny
+                           (Some [(VArray (TBase BInt) [VBase BInt (LInt 1); VBase BInt (LInt 2)],
+                                   VIface TAny (Some (VBase BUint64 (LInt 18446744073709551615))))])))]) in
+  wt env v = true /\ safe v /\ defs_ok reg v /\
+  (do oi <- enc_c fixed reg v; dec_c fixed reg env oi) = Ok v.
+Proof.
+  cbv zeta. split; [vm_compute; reflexivity|]. split; [apply safeb_safe; vm_compute; reflexivity|].
+  split; [apply defs_okb_ok; vm_compute; reflexivity|]. vm_compute. reflexivity.
+Qed.
